@@ -23,7 +23,7 @@ for pid in ids:
     })
 m = {
     'version': 1,
-    'setup_cmd': 'python3 tools/extract.py --selftest && python3 tools/setup.py',
+    'setup_cmd': 'python3 tools/extract.py --selftest && python3 tools/setup.py && python3 tools/transval.py --selftest',
     'hooks': {
         'guard': '--cfg a4lg_ffuzzy_verif',
         'enable': 'RUSTFLAGS="--cfg a4lg_ffuzzy_verif" (used only by the replay/concretiser crate; the verifiers work on the unmodified sources: Verus on the rustc-expanded text, Kani on a scratch copy with harness modules appended)',
